@@ -114,7 +114,10 @@ and succs_all (st : d) : d list =
 exception Too_big
 let cap = 150000
 
-let key (st : d) : string = Marshal.to_string st [Marshal.No_sharing]
+(* the capacities are constants of an exploration (and 1024 is a long unary numeral): left out of the key *)
+let strip (m : state) : state =
+  { m with s_cap = O; s_conns = List.map (fun (x : conn) -> { x with c_cap = O }) m.s_conns }
+let key (st : d) : string = Marshal.to_string { st with m = strip st.m } [Marshal.No_sharing]
 
 (* reflexive-transitive closure under internal steps; also returns which states are quiescent *)
 let closure (sts : d list) : (d * bool) list =
